@@ -8569,7 +8569,8 @@ type LsSrLocalBlock struct {
 func NewLsTLVSrLocalBlock(l *LsSrLocalBlock) *LsTLVSrLocalBlock {
 	var flags uint8 //
 	ranges := []LsSrLabelRange{}
-	var length uint16
+	// Flags(1) + Reserved(1); every range adds Range Size(3) + SID/Label sub-TLV(4+4)
+	length := uint16(2)
 	for _, r := range l.Ranges {
 		ranges = append(ranges, LsSrLabelRange{
 			Range: r.End - r.Begin,
@@ -8581,7 +8582,7 @@ func NewLsTLVSrLocalBlock(l *LsSrLocalBlock) *LsTLVSrLocalBlock {
 				SID: r.Begin,
 			},
 		})
-		length += 4
+		length += 3 + tlvHdrLen + 4
 	}
 	return &LsTLVSrLocalBlock{
 		LsTLV: LsTLV{
